@@ -32,7 +32,7 @@ def pregen(check):
 
 CFG = {
     "id": "C20",
-    "lean_modules": ["GeomV.C20.Proofs", "GeomV.C20.ProofsEqual", "GeomV.C20.ProofsRegistry"],
+    "lean_modules": ["GeomV.C20.Proofs", "GeomV.C20.ProofsEqual", "GeomV.C20.ProofsRegistry", "GeomV.C20.ProofsWgs"],
     "exe": "geomv_c20",
     "go_cmd": "c20",
     "stages": ["go:gen", "lean:prep", "go:impl", "lean:judge"],
@@ -48,7 +48,9 @@ CFG = {
                                  "newTransform_source_pins", "decoderSR_source_pin",
                                  # phase 3: every alias over the regenerated registry; what the definitions mean
                                  "C20_registry_aliases", "C20_registry_alias_equal", "C20_registry_meaning", "registry_defs_parse",
-                                 "aliases_cover"]],
+                                 "aliases_cover",
+                                 # phase 3: the route of NewTransform's closure with the REAL flags for a datum named WGS84
+                                 "C20_transform_route_wgs84", "C20_wgs84name_second_hop_skipped"]],
     "level": "proof",
     "trusted_base": [
         "Lean 4.33.0 kernel; axioms of every theorem printed by #print axioms must be within {propext, Classical.choice, Quot.sound}",
@@ -64,7 +66,7 @@ CFG = {
     "rule": "structured CRS descriptions (5 projected kinds + geographic; spheroids built-in or random (a,1/f); TOWGS84 with 3/7 terms or a named datum; "
             "metre/foot/US survey foot with false origins that are not round in metres; WKT spellings: ESRI names, AUTHORITY, blanks, AXIS) rendered by the "
             "Spec's own toProj4/toWkt; each yields both parses (all SR fields), Equal/NewTransform decisions and a 9-point grid through both references to and "
-            "from WGS84; plus a corpus of real-world and damaged definitions, registered names, Equal pairs and .prj files. "
+            "from WGS84 AND to and from a geographic reference with a 7-parameter datum (two-hop route); twins whose datum shifts differ in one term; spheres (+a=R +b=R vs SPHEROID[..,R,0]); plus a corpus of real-world and damaged definitions, registered names, Equal pairs and .prj files. "
             "distinct = distinct input line; non-trivial = verdict class not '*skipped'",
     "timeout": {"quick": 600, "thorough": 3000},
 }
